@@ -14,10 +14,17 @@ use super::{PartialDate, PlainDate};
 
 /// The native Rust implementation of `Temporal.PlainMonthDay`
 #[non_exhaustive]
-#[derive(Debug, Default, Clone, PartialEq, Eq)]
+#[derive(Debug, Clone, PartialEq, Eq)]
 pub struct PlainMonthDay {
     pub iso: IsoDate,
     calendar: Calendar,
+}
+
+impl Default for PlainMonthDay {
+    /// The default is January 1st, with the reference year every month-day carries (1972).
+    fn default() -> Self {
+        Self::new_unchecked(IsoDate::new_unchecked(1972, 1, 1), Calendar::default())
+    }
 }
 
 impl core::fmt::Display for PlainMonthDay {
